@@ -198,3 +198,130 @@ def thm_ssc():
     ensures(not Collocator._should_save_cache("daily", day.date(), m[0], day + timedelta(hours=5)), id="same day: keep collecting")
     ensures(Collocator._should_save_cache("daily", day.date(), m[0], day + timedelta(days=1)), id="another day: flush")
     ensures(not Collocator._should_save_cache(None, "x", m[0], day), id="no bundling: never flush the cache")
+
+
+# ------------------------------------------------------------------ the worker with the real _collocate_matches and align():
+# an unreadable file (skip_file_errors) only removes the collocations that involve that file
+import contracts.C10 as _c10                     # noqa: E402  (ghost executors / futures, inline list for align, icollect, imap)
+from typhon.files.fileset import FileSet as _FileSet           # noqa: E402
+
+REG.inline_ok.add(M + "Collocator._collocate_matches")
+REG.inline_ok.add(M + "check_collocation_data")
+
+
+class _Sized:
+    def __init__(self, n):
+        self.size = n
+
+
+class PairToken(Token):
+    """the collocations between the data of one primary and one secondary file (opaque)"""
+
+    def __init__(self, p, s):
+        Token.__init__(self, (p, s), datetime(2020, 1, 1))
+        self.variables = {"Collocations/pairs": None, "Collocations/group": None}
+
+    def __getitem__(self, key):
+        return _Sized(1)
+
+    def __setitem__(self, key, value):
+        self.variables[key] = value
+
+
+class _Data:
+    def __init__(self, path):
+        self.path = path
+
+    def copy(self):
+        return _Data(self.path)
+
+
+class _Reader:
+    def __init__(self, failing):
+        self.failing, self.reads = set(failing), []
+
+    def read(self, file_info, **kw):
+        self.reads.append(file_info.path)
+        if file_info.path in self.failing:
+            raise _c10.ReadError(file_info.path)
+        return _Data(file_info.path)
+
+
+_Reader.read.__pyvc_thm__ = True
+
+
+def _ghost_collocate(interp, self, primary, secondary, **kwargs):
+    return PairToken(primary[1].path, secondary[1].path)
+
+
+def _real_stream_case(structure, failing_p, failing_s, bundle):
+    ctx = _sym.ctx()
+    matches = _matches_shared(structure)
+    prim_paths = [m[0].path for m in matches]
+    sec = {}
+    for m in matches:
+        for s in m[1]:
+            sec[s.path] = s
+    fp = _FileSet(path="/p/{year}{month}{day}{hour}.nc", name="P", worker_type="thread")
+    fs = _FileSet(path="/s/{year}{month}{day}{hour}{minute}.nc", name="S", worker_type="thread")
+    fp.handler = _Reader({prim_paths[i] for i in failing_p})
+    fs.handler = _Reader({"/s/g%d.nc" % j for j in failing_s})
+    self = object.__new__(Collocator)
+    self.name = "w"
+    results, errors = GhostQueue(), GhostQueue()
+    ctx.ghost["c05_real_matches"] = True
+    Collocator._process_caller(self, results, errors, "worker-1", None, bundle, None, None, matches=matches, filesets=[fp, fs],
+                               skip_file_errors=True)
+    ctx.ghost["c05_real_matches"] = False
+    return results.items, errors.items, fp, fs
+
+
+def _matches_shared(structure):
+    """structure: per primary the list of secondary numbers (secondaries may be shared between primaries)"""
+    t0 = datetime(2020, 1, 1)
+    secs = {}
+    out = []
+    for i, row in enumerate(structure):
+        p = FileInfo("/p/f%d.nc" % i, [t0 + timedelta(hours=i), t0 + timedelta(hours=i + 1)], {"n": i})
+        lst = []
+        for j in row:
+            if j not in secs:
+                secs[j] = FileInfo("/s/g%d.nc" % j, [t0 + timedelta(minutes=25 * j), t0 + timedelta(minutes=25 * j + 24)], {})
+            lst.append(secs[j])
+        out.append((p, lst))
+    return out
+
+
+for _f in (_real_stream_case, _matches_shared):
+    _f.__pyvc_thm__ = True
+_orig_cm_model = _collocate_matches
+
+
+@_model(Collocator._collocate_matches, always=True)
+def _collocate_matches_switch(interp, self, **kwargs):
+    """the ghost stream (theorems above) or the REAL generator on top of align() (theorem below)"""
+    if interp.ctx.ghost.get("c05_real_matches"):
+        interp.inlined_functions[id(Collocator._collocate_matches.__code__)] = Collocator._collocate_matches
+        return interp.run_function(Collocator._collocate_matches, [self], kwargs)
+    return _orig_cm_model(interp, self, **kwargs)
+
+
+_model(Collocator.collocate, always=True)(_ghost_collocate)
+
+
+@theorem(P, "unreadable-file-only-removes-its-own-collocations")
+def thm_skip():
+    structures = [[[0, 1], [1, 2], [2], [3, 4]], [[0], [0], [0, 1]]]
+    for si, structure in enumerate(structures):
+        n_p = len(structure)
+        n_s = 1 + max(j for row in structure for j in row)
+        cases = [((), ())] + [((i,), ()) for i in range(n_p)] + [((), (j,)) for j in range(n_s)]
+        for failing_p, failing_s in cases:
+            for bundle in (None, "primary"):
+                puts, errs, fp, fs = _real_stream_case(structure, failing_p, failing_s, bundle)
+                want = [("/p/f%d.nc" % i, "/s/g%d.nc" % j) for i, row in enumerate(structure) for j in row
+                        if i not in failing_p and j not in failing_s]
+                tag = " [structure %d, unreadable primaries %s secondaries %s, bundle=%s]" % (si, list(failing_p), list(failing_s), bundle)
+                ensures(errs == [], id="the worker does not crash" + tag)
+                ensures([t.tag for t in _flatten(puts)] == want,
+                        id="exactly the collocations of the file pairs whose two files were readable reach the queue, each once" + tag)
